@@ -98,7 +98,7 @@ class TCPServer:
                 await self.idle_task.stop()
 
     async def _read_data(self) -> None:
-        while not self.reader.at_eof():
+        while True:
             try:
                 data = await asyncio.wait_for(self.reader.read(MAX_RECV), self.config.read_timeout)
             except (
@@ -110,7 +110,11 @@ class TCPServer:
             ):
                 break
             else:
+                # This includes the empty read at EOF, as with the trio
+                # worker, so that the protocol knows the client has finished.
                 await self.protocol.handle(RawData(data))
+                if data == b"":
+                    break
 
         await self.protocol.handle(Closed())
 
